@@ -16,6 +16,9 @@ use serde::{Deserialize, Serialize};
 use server_bin::verif_export::{Conn, Server};
 use std::collections::BTreeMap;
 use std::io::{BufReader, BufWriter, Write};
+use std::net::{Shutdown, TcpListener, TcpStream};
+use std::thread::JoinHandle;
+use std::time::Duration;
 use std::path::{Path, PathBuf};
 
 #[derive(Clone, Copy, Debug, Serialize, Deserialize, PartialEq, Eq)]
@@ -27,19 +30,29 @@ pub struct ServedCfg {
     pub ping_pct: u64,
     /// percent of vanishing clients that leave a broken frame behind before they go
     pub garbage_pct: u64,
+    /// percent of session statements preceded by a redundant BEGIN on the same connection (it must be
+    /// refused and must leave the open transaction alone)
+    #[serde(default)]
+    pub rebegin_pct: u64,
+    /// E5c: connections are real loopback TCP connections served by the real `run_client_loop` on its
+    /// own thread (one request in flight at a time, so the outcome does not depend on scheduling)
+    #[serde(default)]
+    pub loopback: bool,
 }
 
-struct Link {
-    conn: Conn,
-    rd: BufReader<SimPipe>,
-    wr: BufWriter<SimPipe>,
+enum Link {
+    InProc { conn: Conn, rd: BufReader<SimPipe>, wr: BufWriter<SimPipe> },
+    Tcp { stream: TcpStream, th: Option<JoinHandle<Result<(), String>>> },
 }
+
+const TCP_PATIENCE: Duration = Duration::from_secs(20);
 
 pub struct Served {
     pub server: Server,
     auto: Option<Link>,
     links: BTreeMap<u32, Link>,
     cfg: ServedCfg,
+    listener: Option<TcpListener>,
     rng: Rng,
     pub path: PathBuf,
     pub stats: BTreeMap<String, u64>,
@@ -61,7 +74,18 @@ fn rows_out(columns: Vec<String>, data: Vec<Vec<String>>, fault: &mut Option<Str
 impl Served {
     pub fn create(dir: &Path, db_file: &str, cfg: Cfg, scfg: ServedCfg) -> Result<Served, String> {
         let server = Server::new(None, cfg.to_db());
-        let mut s = Served { server, auto: None, links: BTreeMap::new(), cfg: scfg, rng: Rng::new(scfg.pipe_seed ^ 0x5e7), path: dir.join(db_file), stats: BTreeMap::new(), wire_fault: None };
+        let mut listener = None;
+        let mut fell_back = false;
+        if scfg.loopback {
+            match TcpListener::bind("127.0.0.1:0") {
+                Ok(l) => listener = Some(l),
+                Err(_) => fell_back = true, // no loopback here: the run goes through the simulated streams
+            }
+        }
+        let mut s = Served { server, auto: None, links: BTreeMap::new(), cfg: scfg, listener, rng: Rng::new(scfg.pipe_seed ^ 0x5e7), path: dir.join(db_file), stats: BTreeMap::new(), wire_fault: None };
+        if fell_back {
+            s.bump("loopback_unavailable_fell_back_to_simulated_streams");
+        }
         s.auto = Some(s.link());
         match s.auto_rt(Request::Create(s.path.to_string_lossy().into_owned())) {
             Ok(Response::Ok(_)) => Ok(s),
@@ -76,9 +100,44 @@ impl Served {
     }
 
     fn link(&mut self) -> Link {
+        if let Some(l) = &self.listener {
+            let addr = l.local_addr().expect("listener address");
+            if let Ok(client) = TcpStream::connect(addr) {
+                if let Ok((accepted, _)) = l.accept() {
+                    let _ = client.set_read_timeout(Some(TCP_PATIENCE));
+                    let _ = client.set_write_timeout(Some(TCP_PATIENCE));
+                    let _ = client.set_nodelay(true);
+                    let th = self.server.spawn_loop(accepted);
+                    self.bump("loopback_connections");
+                    return Link::Tcp { stream: client, th: Some(th) };
+                }
+            }
+            self.bump("loopback_unavailable_fell_back_to_simulated_streams");
+        }
         let a = self.rng.next();
         let b = self.rng.next();
-        Link { conn: self.server.connect(), rd: BufReader::new(SimPipe::new(a, self.cfg.eintr, self.cfg.frag)), wr: BufWriter::new(SimPipe::new(b, self.cfg.eintr, self.cfg.frag)) }
+        Link::InProc { conn: self.server.connect(), rd: BufReader::new(SimPipe::new(a, self.cfg.eintr, self.cfg.frag)), wr: BufWriter::new(SimPipe::new(b, self.cfg.eintr, self.cfg.frag)) }
+    }
+
+    /// The client side goes away: in-process the loop's tail runs; over TCP the socket is closed and
+    /// the server thread (the real loop, then its tail) is waited for.
+    fn hang_up(&mut self, l: Link) {
+        match l {
+            Link::InProc { conn, .. } => self.server.disconnect(conn),
+            Link::Tcp { stream, mut th } => {
+                let _ = stream.shutdown(Shutdown::Both);
+                drop(stream);
+                if let Some(h) = th.take() {
+                    match h.join() {
+                        Ok(Ok(())) => {}
+                        Ok(Err(_)) => self.bump("server_loops_ended_with_an_error"),
+                        Err(_) => {
+                            self.wire_fault.get_or_insert("the server's connection thread panicked".into());
+                        }
+                    }
+                }
+            }
+        }
     }
 
     /// One request / response exchange on a link. Err = wire-level failure (also recorded).
@@ -92,9 +151,32 @@ impl Served {
     }
 
     fn rt_inner(&mut self, l: &mut Link, req: Request, ping: bool) -> Result<Response, String> {
+        let (conn, rd, wr) = match l {
+            Link::InProc { conn, rd, wr } => (conn, rd, wr),
+            Link::Tcp { stream, .. } => {
+                // several frames in ONE write, then the answers in order
+                let pings = if ping { 1 + self.rng.below(3) } else { 0 };
+                let mut bytes: Vec<u8> = vec![];
+                for _ in 0..pings {
+                    tcp::send_request(&mut bytes, &Request::Ping).map_err(|e| e.to_string())?;
+                }
+                tcp::send_request(&mut bytes, &req).map_err(|e| format!("client could not encode the request: {e}"))?;
+                stream.write_all(&bytes).map_err(|e| format!("client could not write to the connection: {e}"))?;
+                for k in 0..pings {
+                    self.bump("pipelined_pings");
+                    match tcp::recv_response(stream) {
+                        Ok(Response::Pong) => {}
+                        Ok(o) => return Err(format!("Ping answered with {o:?}")),
+                        Err(e) => return Err(format!("pipelined Ping {k} was not answered: {e}")),
+                    }
+                }
+                self.bump("requests_served");
+                return tcp::recv_response(stream).map_err(|e| format!("request {} of {} sent in one write was not answered within {:?}: {e}", pings + 1, pings + 1, TCP_PATIENCE));
+            }
+        };
         // client side: write the frame(s) into the client-to-server stream
         {
-            let pipe = l.rd.get_mut();
+            let pipe = rd.get_mut();
             let (e, f) = (pipe.eintr_pct, pipe.frag);
             pipe.eintr_pct = 0; // the client's own writes are not the object under test
             pipe.frag = 0;
@@ -107,18 +189,18 @@ impl Served {
         }
         let n = if ping { 2 } else { 1 };
         for k in 0..n {
-            match self.server.serve_one(&mut l.conn, &mut l.rd, &mut l.wr) {
+            match self.server.serve_one(conn, rd, wr) {
                 Ok(true) => {}
                 Ok(false) => return Err(format!("the server ended the connection while serving valid request {k}")),
                 Err(e) => return Err(format!("the server loop failed on a valid request: {e}")),
             }
             self.bump("requests_served");
         }
-        if !l.rd.buffer().is_empty() || !l.rd.get_ref().buf.is_empty() {
-            return Err(format!("{} request bytes left unread by the server", l.rd.buffer().len() + l.rd.get_ref().buf.len()));
+        if !rd.buffer().is_empty() || !rd.get_ref().buf.is_empty() {
+            return Err(format!("{} request bytes left unread by the server", rd.buffer().len() + rd.get_ref().buf.len()));
         }
-        let _ = l.wr.flush();
-        let pipe = l.wr.get_mut();
+        let _ = wr.flush();
+        let pipe = wr.get_mut();
         if ping {
             self.bump("pipelined_pings");
             match tcp::recv_response(pipe) {
@@ -131,7 +213,7 @@ impl Served {
         if !pipe.buf.is_empty() {
             return Err(format!("{} response bytes left over after the response", pipe.buf.len()));
         }
-        for (k, v) in std::mem::take(&mut l.rd.get_mut().stats).into_iter().chain(std::mem::take(&mut pipe.stats)) {
+        for (k, v) in std::mem::take(&mut rd.get_mut().stats).into_iter().chain(std::mem::take(&mut pipe.stats)) {
             *self.stats.entry(format!("pipe_{k}")).or_insert(0) += v;
         }
         Ok(resp)
@@ -199,26 +281,47 @@ impl Served {
         let o = self.simple(r, |x| matches!(x, Response::SessionStarted));
         if o.is_err() {
             if let Some(l) = self.links.remove(&s) {
-                self.server.disconnect(l.conn);
+                self.hang_up(l);
             }
         }
         o
     }
     pub fn sexec(&mut self, s: u32, sql: &str) -> Out {
+        if self.links.contains_key(&s) && self.rng.below(100) < self.cfg.rebegin_pct {
+            self.bump("redundant_begins");
+            match self.sess_rt(s, Request::Begin) {
+                Some(Ok(Response::Error(_))) | None => {}
+                Some(Ok(o)) => {
+                    self.wire_fault.get_or_insert(format!("BEGIN inside an open transaction was answered with {o:?}"));
+                }
+                Some(Err(_)) => {}
+            }
+        }
         match self.sess_rt(s, Request::Sql(sql.to_string())) {
             Some(r) => self.sql_out(r),
             None => Out::Err(ErrClass::Other, "no such session".into()),
         }
     }
     fn end(&mut self, s: u32, req: Request) -> Out {
-        match self.sess_rt(s, req) {
+        match self.sess_rt(s, req.clone()) {
             Some(r) => {
+                let refused = matches!(r, Ok(Response::Error(_)));
                 let o = self.simple(r, |x| matches!(x, Response::SessionEnd));
-                if let Some(l) = self.links.remove(&s) {
-                    if Server::in_transaction(&l.conn) {
-                        self.wire_fault.get_or_insert("the connection still has a transaction after COMMIT / ROLLBACK was answered".into());
+                if refused {
+                    // the client asks again: a transaction whose COMMIT / ROLLBACK was refused is gone,
+                    // the repeated request must not be acknowledged
+                    self.bump("refused_transaction_ends_retried");
+                    if let Some(Ok(Response::SessionEnd)) = self.sess_rt(s, req) {
+                        self.wire_fault.get_or_insert("a COMMIT / ROLLBACK repeated after it had been refused was acknowledged (SessionEnd)".into());
                     }
-                    self.server.disconnect(l.conn);
+                }
+                if let Some(l) = self.links.remove(&s) {
+                    if let Link::InProc { conn, .. } = &l {
+                        if Server::in_transaction(conn) {
+                            self.wire_fault.get_or_insert("the connection still has a transaction after COMMIT / ROLLBACK was answered".into());
+                        }
+                    }
+                    self.hang_up(l);
                 }
                 o
             }
@@ -234,35 +337,49 @@ impl Served {
     /// The client vanishes (connection closed, possibly after a broken frame).
     pub fn drop_session(&mut self, s: u32) {
         let Some(mut l) = self.links.remove(&s) else { return };
-        if self.rng.below(100) < self.cfg.garbage_pct {
-            // a frame header announcing more bytes than ever arrive, or an unknown command
-            let junk: Vec<u8> = match self.rng.below(3) {
+        let junk: Option<Vec<u8>> = if self.rng.below(100) < self.cfg.garbage_pct {
+            // a frame header announcing more bytes than ever arrive, an unknown command, an oversize prefix
+            self.bump("broken_frames_before_disconnect");
+            Some(match self.rng.below(3) {
                 0 => vec![9, 0, 0, 0, 1, 0xEE, 1],
                 1 => vec![3, 0, 0, 0, 1, 0xEE, 0],
                 _ => vec![0xff, 0xff, 0xff, 0x7f],
-            };
-            l.rd.get_mut().buf.extend(junk);
-            self.bump("broken_frames_before_disconnect");
-            match self.server.serve_one(&mut l.conn, &mut l.rd, &mut l.wr) {
-                Ok(false) | Err(_) => {}
-                Ok(true) => {
-                    self.wire_fault.get_or_insert("the server answered a broken frame as if it were a request".into());
-                }
-            }
+            })
         } else {
-            // plain EOF: the loop must end quietly
-            match self.server.serve_one(&mut l.conn, &mut l.rd, &mut l.wr) {
-                Ok(false) => {}
-                Ok(true) => {
-                    self.wire_fault.get_or_insert("the server served a request from a closed connection".into());
+            None
+        };
+        match &mut l {
+            Link::InProc { conn, rd, wr } => match junk {
+                Some(j) => {
+                    rd.get_mut().buf.extend(j);
+                    match self.server.serve_one(conn, rd, wr) {
+                        Ok(false) | Err(_) => {}
+                        Ok(true) => {
+                            self.wire_fault.get_or_insert("the server answered a broken frame as if it were a request".into());
+                        }
+                    }
                 }
-                Err(e) => {
-                    self.wire_fault.get_or_insert(format!("EOF from the client was reported as an error: {e}"));
+                None => {
+                    // plain EOF: the loop must end quietly
+                    match self.server.serve_one(conn, rd, wr) {
+                        Ok(false) => {}
+                        Ok(true) => {
+                            self.wire_fault.get_or_insert("the server served a request from a closed connection".into());
+                        }
+                        Err(e) => {
+                            self.wire_fault.get_or_insert(format!("EOF from the client was reported as an error: {e}"));
+                        }
+                    }
+                }
+            },
+            Link::Tcp { stream, .. } => {
+                if let Some(j) = junk {
+                    let _ = stream.write_all(&j);
                 }
             }
         }
         self.bump("disconnects_in_transaction");
-        self.server.disconnect(l.conn);
+        self.hang_up(l);
     }
     pub fn vacuum(&mut self) -> Out {
         match self.auto_rt(Request::Vacuum) {
@@ -290,7 +407,7 @@ impl Served {
     }
     fn drop_links(&mut self) {
         for (_, l) in std::mem::take(&mut self.links) {
-            self.server.disconnect(l.conn);
+            self.hang_up(l);
         }
     }
     pub fn reopen(&mut self) -> Out {
@@ -306,6 +423,9 @@ impl Served {
     pub fn close(&mut self) {
         self.drop_links();
         let _ = self.auto_rt(Request::Close);
+        if let Some(l) = self.auto.take() {
+            self.hang_up(l);
+        }
     }
     pub fn with_db<T>(&self, f: impl FnOnce(Option<&Database>) -> T) -> T {
         self.server.with_db(f)
